@@ -36,6 +36,11 @@ META = {
         "design_ref": "§5 C20", "note": TB + "modelled not verified: macro_rules matching, evaluation order of literals and vec!, const-ness of std functions.",
         "technique": "Lean 4 proofs over regenerated macro arms (arm selection + transcriber evaluation) + generated-invocation and const-item corpus correspondence",
     },
+    "C18": {
+        "text": "const_api_verdict / never_ub: for every function the crate marks const (regenerated list of const fns) and every N, slice length, chunk count and element size, the call is accepted by the compile-time interpreter's judgement or stops at the documented panic (from_slice/from_mut_slice with len != N, chunks with N = 0 on a non-empty slice): every reference it hands out lies inside the allocation it was derived from (via chunks_partition, view_same, the flat/reinterpret lengths of C02/C10), every &mut is derived from the unique borrow (regenerated provenance of as_mut_slice, from_mut_slice, chunks_from_slice_mut, slice_from_chunks_mut), the const_transmute size check never fires, and nothing non-const is called. accept_iff_runtime_ok_*: the accepted calls are exactly the run-time-ok calls and see the same views. Correspondence: ~2600 generated const items compiled against the crate; contents compared with run time.",
+        "design_ref": "§5 C18", "note": TB + "modelled not verified: rustc's interpreter (it is the implementation side of the correspondence).",
+        "technique": "Lean 4 case analysis over the const API on regenerated guards/offsets/provenance (reusing C02/C10 theorems) + compiled const-item corpus correspondence",
+    },
     "C17": {
         "text": "serialize_shape (a tuple of declared length N with exactly the N elements in order, no extra framing); ok_iff / no_partial: visit_seq returns Ok exactly when the source delivers N elements and then no surplus (an up-front hint != N rejects before any read; short, long and failing sources are errors) and an Ok array is always the N delivered elements; roundtrip; read_ledger: on every path each element read so far is either in the returned array or dropped exactly once, nothing uninitialised is dropped (by the fill-loop ledger of C04/C07 instantiated with the scripted source). Guards (hint comparison, position == N, probe condition, finish-after-probe order) are regenerated from src/impl_serde.rs. Correspondence: scripted SeqAccess sources with event order, plus real serde_json, serde_json::Value and bincode inputs of every length around N with malformed elements.",
         "design_ref": "§5 C17", "note": TB + "modelled not verified: serde data-format crates; SeqAccess contract.",
